@@ -135,6 +135,12 @@ conservative. -/
 example (g : Block → Bool) (root : Block) : Schedule (blockQueue g root) [blockQueue g root] := by
   simp [Schedule]
 
+example (lab : Nat → Nat → Nat → Bool) (root : Block) : Conservative lab (fun _ => true) root := by
+  constructor
+  · intro r hr; rw [rejected_of_true] at hr; cases hr
+  · intro q _ r hr; rw [rejected_of_true] at hr; cases hr
+
+
 /-- The same for `MarchingSquaresFilter` / `MarchingSquares`. -/
 theorem ms_mesh_indep_of_workers_and_filter (nx ny : Nat) (lab : Nat → Nat → Bool)
     (g : Block2 → Bool) (sched : List (List Block2))
@@ -197,6 +203,12 @@ theorem dc_windows_each_edge_once (nz B : Nat) (hB : 2 < B) (hBn : B ≤ nz) (ac
   have h := dcRun_emits nz B hB active _ dcInit 0 rfl (by simpa [dcInit] using hBn) (by omega)
     (dcInit_inv B active)
   simpa [dcInit, List.range_eq_range'] using h
+
+/-- non-vacuity: a 12-layer lattice with the minimal buffer (`BufRows = 4`, five windows in the
+correspondence) satisfies the hypotheses; all 23 slots are triangulated. -/
+example : (dcRun 12 4 (by decide) (fun _ => true) dcInit).flatten.map Prod.fst = List.range 23 := by
+  have h := dc_windows_each_edge_once 12 4 (by decide) (by decide) (fun _ => true)
+  simpa using h
 
 /-- The clamp of `newDcCubeLayout` yields a valid buffer height whenever `len(Zs) ≥ 3` (the only
 case `mesh` accepts), for every `BufferSize` (0 = default) and every `len(Xs)·len(Ys)`. -/
